@@ -154,7 +154,9 @@ RULE = ('exhaustive integer triples |h|,|k|,|l| <= N (N=6 quick, 12 thorough) in
         'cells: one of every crystal family from the Box constructors with generic parameters, random dyadic '
         'right-handed triclinic cells (exact regime), random float triclinic cells; all 8 centering settings plus '
         'unknown keys; all_indices(m, reduce) for small m; index strings over the 4 bracket kinds with optional '
-        'p/q prefix and spacing variants plus malformed strings; family predicates on constructor cells and on '
+        'p/q prefix, indices of 1-6 digits with sign, spacing variants (search: own generator + own reader of the text) '
+        'plus malformed strings; arrays of quadruples with offending rows whose sums cancel; 11 leading shapes x 9 '
+        'functions; family predicates on constructor cells and on '
         'duck-typed parameter sets near the isclose boundary; distinct = distinct canonical driver line; '
         'non-trivial = not the zero index vector / not an error case')
 ASSUMPTIONS = [
@@ -1483,8 +1485,10 @@ MANIFEST = {
             'rational * (h,k,l), hence the returned normal is the unit vector along h a*+k b*+l c* for det>0 and the zone law '
             'n.(uvw V)=0 <-> hu+kv+lw=0; the 16 centering matrices are regenerated from miller.py on every run and proved '
             'mutually inverse with det 1/n and n; reduce_indices gives coprime indices of the same direction, all_indices '
-            'lists exactly the bounded non-zero triples; family predicates/identifyfamily identify every family-constructor '
-            'parameter set. The model is tied to the code by an exhaustive differential run (all index triples to the bound, '
+            'lists exactly the bounded non-zero triples; every well-formed index string (optional p/q, four bracket kinds, 3 or '
+            '4 integers of any size and sign, free spacing) parses to exactly the numbers it shows; an array of four-index '
+            'sets is accepted iff every row passes its own guard; family predicates/identifyfamily identify every '
+            'family-constructor parameter set. The model is tied to the code by an exhaustive differential run (all index triples to the bound, '
             'cells of every family, strings, boundary parameter sets).',
     'note': 'Trusted: Lean kernel + propext/Classical.choice/Quot.sound; the table translator (harness/props/c16.py); numpy '
             'primitives; norm (sqrt) and the float rounding bound of the cross product are assumptions; Python float() '
